@@ -50,4 +50,26 @@ try:
 finally:
     sh(["git", "checkout", "--", "."])
     sh(["git", "clean", "-fdq", "--", "swcgeom", "tests"])
+if "--keep" in sys.argv:
+    import shutil
+    confirmed = res.get("demo_without") == 0 and res.get("demo_with", 0) != 0 and str(res.get("tests", "")).startswith("81 passed")
+    if not confirmed:
+        print("NOT CONFIRMED, not kept")
+    else:
+        dst = os.path.join("/verif/seeded", os.path.basename(seed))
+        os.makedirs(dst, exist_ok=True)
+        shutil.copy(os.path.join(seed, "patch.diff"), dst)
+        shutil.copy(demo, dst)
+        try:
+            meta = json.load(open(os.path.join(seed, "meta.json")))
+        except Exception:
+            meta = {}
+        meta["confirmed_by_verifier"] = {
+            "ran": "tools/seedtest.py: clean scratch worktree of /repo HEAD -> demo (exit 0) -> git apply patch.diff -> repo test suite -> demo (non-zero) -> ./check <ID> " + tier + " with VERIF_REPO=<worktree> -> git checkout",
+            "tests_with_change": res.get("tests"), "demo_without": res.get("demo_without"), "demo_with": res.get("demo_with"),
+            "demo_message": res.get("demo_msg"),
+            "checks": res.get("checks"),
+            "detected": any(v.get("exit") == 1 for v in res.get("checks", {}).values()),
+        }
+        json.dump(meta, open(os.path.join(dst, "meta.json"), "w"), indent=1)
 print(json.dumps(res, indent=1))
